@@ -31,6 +31,7 @@ ASSUMPTIONS = [
     "which requests must be granted is not judged (the statement only fixes the views and the refused case)",
     "Excl: freeze()/lock()/__copy__ of the wrapper; iuse_effective and user_patches (need a domain); src_uri (no such package attribute)",
     "one package: initial USE {b, L}, unchangeable {L, K}",
+    "the seen-set stores a 128-bit BLAKE2 digest of the exact state snapshot (memory), not the snapshot itself",
 ]
 BOUNDS = {
     "quick": "20-event alphabet, all histories to depth 5, partitioned by 2-event root prefixes",
